@@ -53,6 +53,8 @@ def render(recipe):
             d['work'] = len(lines)
         if f.get('reconf'):
             lines.append('    RECONF()')                        # the service removes every tracepoint right now
+        if f.get('pause'):
+            lines.append('    PAUSE()')                         # other program threads run while this invocation is live
         lines.append('    acc = [tag]')
         ind = '    '
         if f['finally']:
@@ -110,12 +112,13 @@ class C15(Prop):
     quick_examples = 2500
     thorough_examples = 8000
     floors = {'overlapping_openings': 0.2, 'exception_through_opening': 0.15, 'several_threads': 0.2, 'capture': 0.3,
-              'config_emptied_mid_invocation': 0.05}
+              'config_emptied_mid_invocation': 0.05, 'threads_overlap_an_open_invocation': 0.05}
 
     def strategy(self, tier):
         func = fd({
             'kind': st.sampled_from(['plain', 'rec', 'rec', 'gen', 'loop1']),
             'reconf': st.sampled_from([False, False, False, True]),
+            'pause': st.sampled_from([False, False, True]),
             'raises': st.sampled_from(['never', 'never', 'leaf', 'always']),
             'catches': st.booleans(), 'finally': st.booleans(),
             'calls': st.lists(st.integers(1, 3), max_size=2, unique=True),
@@ -221,12 +224,29 @@ class C15(Prop):
                 handler.new_config([])
                 out.cls('config_emptied_mid_invocation')
 
-        ns = {'__name__': 'c15_prog', 'RECONF': RECONF}
+        later_threads = []
+        paused_once = []
+
+        def PAUSE():
+            # the remaining program threads run to completion while the calling invocation is suspended here
+            if paused_once or not later_threads:
+                return
+            paused_once.append(1)
+            out.cls('threads_overlap_an_open_invocation')
+            import sys as _sys
+            old_t = _sys.gettrace()
+            _sys.settrace(None)
+            try:
+                while later_threads:
+                    run_thread(*later_threads.pop(0))
+            finally:
+                _sys.settrace(old_t)
+
+        ns = {'__name__': 'c15_prog', 'RECONF': RECONF, 'PAUSE': PAUSE}
         exec(code, ns)
         old = threading.gettrace()
         threading.settrace(ip.trace)
-        try:
-            for ti, (fidx, arg) in enumerate(recipe['threads']):
+        def run_thread(ti, fidx, arg):
                 fi = info[fidx % len(info)]
                 entry = fi['name']
                 if recipe['funcs'][fidx % len(info)]['kind'] == 'gen':
@@ -242,6 +262,11 @@ class C15(Prop):
                 store = lab.thread_local_store()
                 if t.ident in store and len(store[t.ident]) > 0:
                     leftovers.append((t.name, len(store[t.ident])))
+
+        try:
+            later_threads.extend((ti, fidx, arg) for ti, (fidx, arg) in enumerate(recipe['threads']))
+            while later_threads:
+                run_thread(*later_threads.pop(0))
         finally:
             threading.settrace(old)
         # ---- classes ----------------------------------------------------------------------------------------
